@@ -360,7 +360,7 @@ func runC09(seed int64, tier string, outDir string) *result {
 	}
 	res.CaseFiles = writeShards(outDir, "C09", hdr.String(), []*caseList{list}, 150)
 	res.ModelCases = len(list.items)
-	res.Evaluations = len(loads)
+	res.Evaluations = len(loads) + c09OrderedReloads(mon, seed)
 	res.Distinct = len(shapes)
 	res.Rule = "one evaluation = one unbounded reload of one reachable log state (after a step of a random history of appends with pointer counts 1..64 and joins over 1-4 replicas) through one loader under one schedule; distinct_nontrivial counts distinct (loader, history, step, recorded event trace) tuples"
 	res.Stats["loads_by_loader"] = stats
